@@ -471,10 +471,10 @@ func (eng *Engine) readExterns(dir string) {
 
 func parseUF(s string) (string, []string, string) {
 	i := strings.Index(s, "(")
-	j := strings.Index(s, ")")
+	j := strings.LastIndex(s, ")")
 	name := strings.TrimSpace(s[:i])
 	var args []string
-	for _, a := range strings.Split(s[i+1:j], ",") {
+	for _, a := range splitTop(s[i+1:j], ',') {
 		if a = strings.TrimSpace(a); a != "" {
 			args = append(args, a)
 		}
